@@ -76,7 +76,7 @@ func (x *Exec) collectWrites(n ast.Node, info *types.Info, pkg *PkgInfo, ws Writ
 					iname = nn.Obj().Name()
 				}
 				switch {
-				case rp == "github.com/cosmos/cosmos-sdk/store/types.KVStore" || iname == "KVStore":
+				case rp == "github.com/cosmos/cosmos-sdk/store/types.KVStore" || iname == "KVStore" || iname == "BasicKVStore":
 					if fn.Name() == "Set" || fn.Name() == "Delete" {
 						ws[moduleOf(pkg.Path)] = true
 					}
